@@ -155,4 +155,25 @@ theorem oracle_accounts_bound :
       i = 0 ∧ Mfi.Props.C09.before a.2 .pythOwnerCheck (Mfi.Props.C09.firstLoad a.2) = true) :=
   ⟨Mfi.Props.C09.every_account_bound, Mfi.Props.C09.pyth_owner_checked⟩
 
+/-- **the constraints the translator cannot classify are pinned verbatim**: 23 account constraints of the
+    integration / emissions / fee-destination / staked-settings structs have no recognised kind in the generated table
+    (venue account owner and mint bindings, obligation / spot-position checks, destination mints, the deleverage
+    receiver = risk admin test, ...). Their normalised text is fingerprinted by the translator on every run and must be
+    exactly this list (struct, account, fingerprint): an edit of any of them — dropped, weakened, pointed at another
+    account — is a broken obligation even though no theorem speaks about its meaning. -/
+theorem unclassified_constraints_pinned :
+    Mfi.Gen.Acc.otherFingerprints =
+      [(.LendingPoolAddBankKamino, .f_integration_acc_1, 1294895318964715725), (.KaminoDeposit, .f_integration_acc_2, 102789841884831255),
+       (.KaminoDeposit, .f_integration_acc_2, 2232305478470895852), (.KaminoWithdraw, .f_integration_acc_2, 2232305478470895852),
+       (.KaminoWithdraw, .f_integration_acc_2, 102789841884831255), (.LendingAccountSettleEmissions, .f_marginfi_account, 1925430640847475726),
+       (.EndDeleverage, .f_liquidation_record, 800305038196698214), (.LendingPoolAddBankSolend, .f_integration_acc_1, 1481642461694787521),
+       (.SolendDeposit, .f_integration_acc_2, 1332785733999453949), (.SolendWithdraw, .f_integration_acc_2, 1332785733999453949),
+       (.LendingPoolUpdateFeesDestinationAccount, .f_destination_account, 2287509815940661847), (.LendingPoolWithdrawFeesPermissionless, .f_fees_destination_account, 442390752958412362),
+       (.PropagateStakedSettings, .f_bank, 192467567798966075), (.LendingPoolAddBankDrift, .f_integration_acc_1, 778144333709451630),
+       (.DriftDeposit, .f_integration_acc_2, 3003145849582993), (.DriftDeposit, .f_integration_acc_1, 1555694171009604275),
+       (.DriftHarvestReward, .f_integration_acc_2, 522844572761367543), (.DriftHarvestReward, .f_harvest_drift_spot_market, 1082706562961323273),
+       (.DriftHarvestReward, .f_harvest_drift_spot_market, 2159362736921184234), (.DriftWithdraw, .f_integration_acc_2, 3003145849582993),
+       (.DriftWithdraw, .f_integration_acc_2, 471323873936025127), (.DriftWithdraw, .f_integration_acc_2, 1377500195096470279),
+       (.DriftWithdraw, .f_integration_acc_1, 1555694171009604275)] := by decide
+
 end Mfi.Props.C08
